@@ -2287,6 +2287,17 @@ impl<'a> UserModel<'a> {
         self.model.get_fmt_settings()
     }
 
+    /// Verification hook: lengths of the undo stack, the redo stack and the
+    /// outgoing send queue. Read-only.
+    #[cfg(feature = "verif")]
+    pub fn verif_queue_lengths(&self) -> (usize, usize, usize) {
+        (
+            self.history.undo_stack.len(),
+            self.history.redo_stack.len(),
+            self.send_queue.len(),
+        )
+    }
+
     // **** Private methods ****** //
 
     pub(crate) fn push_diff_list(&mut self, diff_list: DiffList) {
